@@ -307,7 +307,11 @@ def make_cases(rng, n_composite):
                 cases.append(read_case(json.dumps({a: [a]}, ensure_ascii=ea), {a: [a]}, rcls, "atom-as-key"))
     for cls, text, v in RAW_TEXTS:
         cases.append(read_case(text, v, cls, "raw-text"))
-    # composite values
+    return cases + composite_cases(rng, n_composite)
+
+
+def composite_cases(rng, n_composite):
+    cases = []
     for i in range(n_composite):
         hostile = rng.random() < 0.3
         v = gen_value(rng, rng.choice([1, 2, 3, 4, 5, 6, 8]), hostile)
